@@ -60,11 +60,14 @@ fn ident(rng: &mut Rng) -> Vec<u8> {
 struct Heap {
     bytes: Vec<u8>,
     names: Vec<(usize, usize)>, // (offset, length without NUL)
+    /// wide family: some names are followed by >= 256 NULs, all included in the declared length
+    /// (`string_length` is a u16)
+    long_pad: bool,
 }
 
 impl Heap {
     fn new(rng: &mut Rng) -> Heap {
-        let mut h = Heap { bytes: vec![], names: vec![] };
+        let mut h = Heap { bytes: vec![], names: vec![], long_pad: false };
         if rng.chance(1, 4) {
             h.bytes.push(0); // leading NUL as in some real heaps
         }
@@ -81,6 +84,12 @@ impl Heap {
         let id = if rng.chance(1, 25) { vec![] } else { ident(rng) };
         let o = self.bytes.len();
         self.bytes.extend_from_slice(&id);
+        if self.long_pad && rng.chance(1, 3) {
+            let nuls = *rng.pick(&[255usize, 256, 257, 300]) - id.len().min(200);
+            self.bytes.extend(std::iter::repeat(0u8).take(nuls));
+            self.names.push((o, id.len()));
+            return (o as u32, (id.len() + nuls) as u16);
+        }
         let nuls = match rng.below(6) {
             0 => 0,
             1 | 2 | 3 => 1,
@@ -130,6 +139,40 @@ fn params(rng: &mut Rng, heap: &mut Heap, max: u64) -> Vec<ParamG> {
         .collect()
 }
 
+fn params_n(rng: &mut Rng, heap: &mut Heap, n: usize) -> Vec<ParamG> {
+    (0..n)
+        .map(|_| {
+            let (off, len) = heap.name(rng);
+            ParamG { id: rng.u32_edge(), off, len, unk: u16_edge(rng), slot: u16_edge(rng), size: u16_edge(rng) }
+        })
+        .collect()
+}
+
+/// Overrides of the "wide" shader-package family: one size / count / offset field of the format at
+/// and beyond the width of a narrower integer (every field after it in the file moves if it is
+/// consumed with the wrong width).  `None` / 0 / false = as in the ordinary generator.
+#[derive(Default, Clone)]
+struct ShpkWide {
+    /// `material_parameters_size` with defaults present (u32; the defaults count is `size >> 2`)
+    defaults_size: Option<u32>,
+    /// (gap before the first shader's blob, size of its bytecode): u32 `data_offset` / `data_size`
+    blob: Option<(usize, usize)>,
+    /// unreferenced bytes at the start of the string heap: u32 `local_string_offset`
+    heap_prefill: usize,
+    long_pad: bool,
+    /// package-level parameter list (which of the four, count) / the first shader's (which, count): u16 counts
+    pkg_params: Option<(usize, usize)>,
+    shader_params: Option<(usize, usize)>,
+    /// (vertex?, count): u32 shader counts
+    shaders: Option<(bool, usize)>,
+    /// (table 0..2, count): u32 key counts
+    keys: Option<(usize, usize)>,
+    nodes: Option<usize>,
+    aliases: Option<usize>,
+    passes: Option<usize>,
+    mat_params: Option<usize>,
+}
+
 fn params_str(ps: &[ParamG]) -> String {
     list(ps, ",", |p| format!("{}:{}:{}:{}:{}:{}", p.id, p.off, p.len, p.unk, p.slot, p.size))
 }
@@ -144,11 +187,25 @@ struct ShaderG {
     lists: [Vec<ParamG>; 4],
 }
 
-fn gen_shpk(rng: &mut Rng, big: bool) -> String {
+fn gen_shpk(rng: &mut Rng, big: bool, w: &ShpkWide) -> String {
     let mut heap = Heap::new(rng);
+    if w.heap_prefill > 0 {
+        heap.bytes = vec![b'x'; w.heap_prefill - 1];
+        heap.bytes.push(0);
+    }
+    heap.long_pad = w.long_pad;
     let m = if big { 6 } else { 3 };
-    let nvs = rng.range(0, m);
-    let nps = rng.range(0, m);
+    let mut nvs = rng.range(0, m);
+    let mut nps = rng.range(0, m);
+    match w.shaders {
+        Some((true, n)) => nvs = n as u64,
+        Some((false, n)) => nps = n as u64,
+        None => {}
+    }
+    if (w.blob.is_some() || w.shader_params.is_some()) && nvs + nps == 0 {
+        nps = 1;
+    }
+    let lean = w.shaders.is_some(); // many shaders: keep each of them small
     // blob region: per shader a slot; slots may be listed in any order, may overlap or leave gaps
     let mut blob: Vec<u8> = vec![];
     let mut shaders: Vec<(bool, ShaderG)> = vec![];
@@ -163,17 +220,25 @@ fn gen_shpk(rng: &mut Rng, big: bool) -> String {
             let k = rng.range(1, 7) as usize;
             blob.extend(rng.bytes(k)); // gap
         }
-        let size = match rng.below(5) {
+        let mut size = match rng.below(5) {
             0 => 0,
             1 => rng.range(1, 4),
             _ => rng.range(4, if big { 300 } else { 40 }),
         } as usize;
+        if let (Some((gap, sz)), true) = (w.blob, shaders.is_empty()) {
+            blob.extend(std::iter::repeat(0xA5u8).take(gap));
+            size = sz;
+        }
         let off = blob.len();
         if is_vertex {
             blob.extend(rng.bytes(8));
         }
         blob.extend(rng.bytes(size));
-        let lists = [params(rng, &mut heap, 3), params(rng, &mut heap, 3), params(rng, &mut heap, 2), params(rng, &mut heap, 3)];
+        let pm = if lean { 1 } else { 3 };
+        let mut lists = [params(rng, &mut heap, pm), params(rng, &mut heap, pm), params(rng, &mut heap, pm.min(2)), params(rng, &mut heap, pm)];
+        if let (Some((which, n)), true) = (w.shader_params, shaders.is_empty()) {
+            lists[which] = params_n(rng, &mut heap, n);
+        }
         shaders.push((is_vertex, ShaderG { off: off as u32, size: size as u32, lists }));
     }
     if rng.chance(1, 6) && !shaders.is_empty() {
@@ -195,24 +260,37 @@ fn gen_shpk(rng: &mut Rng, big: bool) -> String {
     };
     let vs = shader_str(true);
     let ps = shader_str(false);
-    let nmp = rng.range(0, m);
+    let nmp = match w.mat_params { Some(n) => n as u64, None => rng.range(0, m) };
     let mp: Vec<String> = (0..nmp).map(|_| format!("{}:{}:{}", rng.u32_edge(), u16_edge(rng), u16_edge(rng))).collect();
     let hd: u16 = match rng.below(6) {
         0 | 1 => 0,
         2 | 3 | 4 => 1,
         _ => *rng.pick(&[2u16, 0x101, 0xFFFF, 0x100]),
     };
-    let (mps, defs): (u32, Vec<u32>) = if hd == 1 {
+    let hd = if w.defaults_size.is_some() { 1 } else { hd };
+    let (mps, defs): (u32, Vec<u32>) = if let Some(mps) = w.defaults_size {
+        // short decimal representations keep the case line moderate
+        (mps, (0..mps >> 2).map(|_| if rng.chance(1, 16) { f32_edge(rng) } else { rng.below(1000) as u32 }).collect())
+    } else if hd == 1 {
         let n = rng.range(0, if big { 40 } else { 8 }) as u32;
         let mps = n * 4 + rng.below(4) as u32; // not necessarily a multiple of 4: the count is size >> 2
         (mps, (0..n).map(|_| f32_edge(rng)).collect())
     } else {
         (rng.u32_edge(), vec![])
     };
-    let lists = [params(rng, &mut heap, m), params(rng, &mut heap, m), params(rng, &mut heap, m), params(rng, &mut heap, 2)];
-    let nsk = rng.range(0, 3);
-    let nck = rng.range(0, 3);
-    let nmk = rng.range(0, 4);
+    let mut lists = [params(rng, &mut heap, m), params(rng, &mut heap, m), params(rng, &mut heap, m), params(rng, &mut heap, 2)];
+    if let Some((which, n)) = w.pkg_params {
+        lists[which] = params_n(rng, &mut heap, n);
+    }
+    let mut nsk = rng.range(0, 3);
+    let mut nck = rng.range(0, 3);
+    let mut nmk = rng.range(0, 4);
+    match w.keys {
+        Some((0, n)) => nsk = n as u64,
+        Some((1, n)) => nck = n as u64,
+        Some((_, n)) => nmk = n as u64,
+        None => {}
+    }
     let keys = |rng: &mut Rng, n: u64| -> String {
         let v: Vec<String> = (0..n).map(|_| format!("{}:{}", rng.u32_edge(), rng.u32_edge())).collect();
         list(&v, ",", |s| s.clone())
@@ -222,18 +300,27 @@ fn gen_shpk(rng: &mut Rng, big: bool) -> String {
     let mk = keys(rng, nmk);
     // nodes: selectors from a small pool so that duplicates and alias/node clashes occur
     let pool: Vec<u32> = (0..6).map(|_| rng.u32_edge()).collect();
-    let nn = rng.range(0, if big { 8 } else { 4 });
+    let mut nn = rng.range(0, if big { 8 } else { 4 });
+    if let Some(n) = w.nodes {
+        nn = n as u64;
+    }
+    if w.keys.map_or(false, |k| k.1 > 1000) {
+        nn = nn.min(1); // every node repeats the key tables
+    }
+    if (w.aliases.is_some() || w.passes.is_some()) && nn == 0 {
+        nn = 1;
+    }
     let mut nodes = vec![];
     let mut node_sels = vec![];
     for _ in 0..nn {
         let sel = if rng.chance(2, 3) { *rng.pick(&pool) } else { rng.next() as u32 };
         node_sels.push(sel);
-        let npass = rng.range(0, 3);
+        let npass = match (w.passes, nodes.is_empty()) { (Some(n), true) => n as u64, _ => rng.range(0, 3) };
         let passes: Vec<String> = (0..npass).map(|_| format!("{}:{}:{}", rng.u32_edge(), rng.below(8), rng.below(8))).collect();
         let kl = |rng: &mut Rng, n: u64| -> String { u32s(&(0..n).map(|_| rng.u32_edge()).collect::<Vec<_>>()) };
         nodes.push(format!("{}/{}/{}/{}/{}/{}/{}", sel, hex(&rng.bytes(16)), kl(rng, nsk), kl(rng, nck), kl(rng, nmk), kl(rng, 2), list(&passes, ",", |s| s.clone())));
     }
-    let na = if nn == 0 { 0 } else { rng.range(0, 4) };
+    let na = if nn == 0 { 0 } else { match w.aliases { Some(n) => n as u64, None => rng.range(0, 4) } };
     let mut aliases = vec![];
     let mut alias_sels = vec![];
     for _ in 0..na {
@@ -242,8 +329,11 @@ fn gen_shpk(rng: &mut Rng, big: bool) -> String {
         aliases.push(format!("{}:{}", sel, rng.below(nn)));
     }
     let mut q: Vec<u32> = vec![];
-    q.extend(node_sels.iter());
-    q.extend(alias_sels.iter());
+    // (long tables: a sample of the stored selectors, `find_node` of the specification is linear)
+    q.extend(node_sels.iter().take(40));
+    q.extend(node_sels.iter().rev().take(if node_sels.len() > 40 { 10 } else { 0 }));
+    q.extend(alias_sels.iter().take(40));
+    q.extend(alias_sels.iter().rev().take(if alias_sels.len() > 40 { 10 } else { 0 }));
     q.extend(pool.iter().take(3));
     q.push(rng.next() as u32);
     let fmt: &[u8] = match rng.below(8) {
@@ -268,6 +358,55 @@ fn gen_shpk(rng: &mut Rng, big: bool) -> String {
     )
 }
 
+
+/// the wide family of one run.  quick: the 2^16 boundary of every u32 size / offset whose narrowing
+/// would otherwise go unnoticed, and one 2^8 boundary count per u16 / u32 count; thorough: every
+/// boundary value of each, and the 2^16 boundary of the u32 counts
+fn shpk_wide_cases(rng: &mut Rng, thorough: bool) -> Vec<ShpkWide> {
+    let d = ShpkWide::default();
+    let mut v: Vec<ShpkWide> = vec![];
+    let c8: Vec<usize> = if thorough { vec![255, 256, 257, 300, 511, 512, 513] } else { vec![*rng.pick(&[256usize, 257, 300])] };
+    // material_parameters_size with defaults (count = size >> 2)
+    for mps in [0xFFF0u32, 0xFFFC, 0x10000, 0x10004, 0x10040] {
+        v.push(ShpkWide { defaults_size: Some(mps), ..d.clone() });
+    }
+    if thorough {
+        for mps in [0xFFFFu32, 0x10003, 0x1FFFC, 0x20000, 0x30010] {
+            v.push(ShpkWide { defaults_size: Some(mps), ..d.clone() });
+        }
+    }
+    // blob: data_size / data_offset at 2^16 (the second also puts strings_offset beyond 2^16)
+    for b in [(0usize, 0xFFFFusize), (0, 0x10000), (0, 0x10001), (0xFFF8, 16), (0x10000, 16), (0x10008, 40)] {
+        v.push(ShpkWide { blob: Some(b), ..d.clone() });
+    }
+    // string heap: every name offset beyond 2^16; declared lengths beyond 2^8
+    for n in [0xFFFFusize, 0x10000, 0x10010] {
+        v.push(ShpkWide { heap_prefill: n, ..d.clone() });
+    }
+    v.push(ShpkWide { long_pad: true, ..d.clone() });
+    v.push(ShpkWide { long_pad: true, heap_prefill: 300, ..d.clone() });
+    // counts at 2^8
+    for &n in &c8 {
+        v.push(ShpkWide { pkg_params: Some((rng.below(4) as usize, n)), ..d.clone() });
+        v.push(ShpkWide { shader_params: Some((rng.below(4) as usize, n)), ..d.clone() });
+        v.push(ShpkWide { shaders: Some((rng.chance(1, 2), n)), ..d.clone() });
+        v.push(ShpkWide { keys: Some((rng.below(3) as usize, n)), ..d.clone() });
+        v.push(ShpkWide { nodes: Some(n), ..d.clone() });
+        v.push(ShpkWide { aliases: Some(n), ..d.clone() });
+        v.push(ShpkWide { passes: Some(n), ..d.clone() });
+        v.push(ShpkWide { mat_params: Some(n), ..d.clone() });
+    }
+    if thorough {
+        // u32 counts at 2^16 (not the shader counts: `Spec.Shpk.view` slices the whole data region
+        // once per shader, 65 536 shaders take minutes in the driver)
+        for n in [65535usize, 65536, 65537] {
+            v.push(ShpkWide { keys: Some((rng.below(3) as usize, n)), ..d.clone() });
+            v.push(ShpkWide { aliases: Some(n), ..d.clone() });
+            v.push(ShpkWide { passes: Some(n), ..d.clone() });
+        }
+    }
+    v
+}
 
 // ------------------------------------------------------------------------------------------
 // materials
@@ -320,15 +459,74 @@ fn tex_path(rng: &mut Rng) -> Vec<u8> {
     v
 }
 
+/// Overrides of the "wide" material family (`None` / 0 = as in the ordinary generator): one count /
+/// size / offset field of the format at the width of a narrower or signed integer.
+#[derive(Default, Clone)]
+struct MtrlWide {
+    /// texture_count, uv_set_count, color_set_count, additional_data_size (incl. the flags word): u8
+    ntex: Option<usize>,
+    nuv: Option<usize>,
+    ncs: Option<usize>,
+    ar_total: Option<usize>,
+    /// unreferenced bytes in the heap right after the texture paths: every u16 name offset >= this
+    rest_prefill: usize,
+    /// exact string_table_size (u16)
+    heap_total: Option<usize>,
+    /// number of shader values: shader_value_list_size (u16) = 4 n + r, constants' u16 value_offset up to it
+    nvals: Option<usize>,
+    /// shader_key_count, constant_count, sampler_count: u16
+    nkeys: Option<usize>,
+    nconst: Option<usize>,
+    nsamp: Option<usize>,
+}
+
+/// quick: one value per field; thorough: every boundary value
+fn mtrl_wide_cases(rng: &mut Rng, thorough: bool) -> Vec<MtrlWide> {
+    let d = MtrlWide::default();
+    let mut v: Vec<MtrlWide> = vec![];
+    let pickq = |rng: &mut Rng, all: &[usize], quick: &[usize]| -> Vec<usize> { if thorough { all.to_vec() } else { vec![*rng.pick(quick)] } };
+    for n in pickq(rng, &[127, 128, 255], &[128, 255]) {
+        v.push(MtrlWide { ntex: Some(n), ..d.clone() });
+    }
+    for n in pickq(rng, &[127, 128, 255], &[128, 255]) {
+        v.push(MtrlWide { nuv: Some(n), ncs: Some(if rng.chance(1, 2) { n } else { 2 }), ..d.clone() });
+    }
+    for n in pickq(rng, &[127, 128, 255], &[128, 255]) {
+        v.push(MtrlWide { ar_total: Some(n), ..d.clone() });
+    }
+    for n in pickq(rng, &[255, 256, 257, 300, 32767, 32768, 65000], &[256, 300]) {
+        v.push(MtrlWide { rest_prefill: n, ..d.clone() });
+    }
+    for n in pickq(rng, &[255, 256, 257, 32767, 32768, 65535], &[256, 257, 65535]) {
+        v.push(MtrlWide { heap_total: Some(n), ..d.clone() });
+    }
+    for n in pickq(rng, &[63, 64, 65, 300, 8191, 8192, 16383], &[64, 65, 300]) {
+        v.push(MtrlWide { nvals: Some(n), nconst: Some(12), ..d.clone() });
+    }
+    if !thorough {
+        v.push(MtrlWide { nvals: Some(16383), ..d.clone() });
+    }
+    for n in pickq(rng, &[255, 256, 257, 300, 32767, 32768, 65535], &[256, 257, 300]) {
+        v.push(MtrlWide { nkeys: Some(n), ..d.clone() });
+        v.push(MtrlWide { nconst: Some(n), nvals: Some(70), ..d.clone() });
+        v.push(MtrlWide { nsamp: Some(n), ..d.clone() });
+    }
+    v
+}
+
 /// `rows`: Some(base) = consecutive half patterns starting at `base` (exhaustive sweep)
-fn gen_mtrl(rng: &mut Rng, sweep: Option<u32>) -> String {
-    let ntex = if sweep.is_some() { 1 } else { rng.range(0, 4) };
+fn gen_mtrl(rng: &mut Rng, sweep: Option<u32>, w: &MtrlWide) -> String {
+    let ntex = if sweep.is_some() { 1 } else { match w.ntex { Some(n) => n as u64, None => rng.range(0, 4) } };
     let textures: Vec<Vec<u8>> = (0..ntex).map(|_| tex_path(rng)).collect();
     let tex_len: usize = textures.iter().map(|t| t.len() + 1).sum();
     // rest of the heap: set names, shader package name, padding
     let mut rest: Vec<u8> = vec![];
-    let nuv = rng.range(0, 3);
-    let ncs = rng.range(0, 2);
+    if w.rest_prefill > 0 {
+        rest = vec![b'y'; w.rest_prefill - 1];
+        rest.push(0);
+    }
+    let nuv = match w.nuv { Some(n) => n as u64, None => rng.range(0, 3) };
+    let ncs = match w.ncs { Some(n) => n as u64, None => rng.range(0, 2) };
     let mut uv = vec![];
     for i in 0..nuv {
         uv.push(format!("{}:{}", tex_len + rest.len(), if rng.chance(1, 4) { u16_edge(rng) } else { i as u16 }));
@@ -352,7 +550,19 @@ fn gen_mtrl(rng: &mut Rng, sweep: Option<u32>) -> String {
     for _ in 0..pad {
         rest.push(if rng.chance(1, 3) { rng.range(1, 0x7F) as u8 } else { 0 });
     }
-    if tex_len > 0 && rng.chance(1, 8) {
+    if let Some(total) = w.heap_total {
+        while tex_len + rest.len() < total {
+            rest.push(if rng.chance(1, 3) { rng.range(1, 0x7F) as u8 } else { 0 });
+        }
+        if rng.chance(1, 2) && tex_len + rest.len() == total && total >= 2 {
+            // the shader package name at the very end of the heap: one character and the terminator
+            spo = total - 2;
+            let k = rest.len();
+            rest[k - 2] = b'z';
+            rest[k - 1] = 0;
+        }
+    }
+    if tex_len > 0 && w.heap_total.is_none() && w.rest_prefill == 0 && rng.chance(1, 8) {
         // name offset pointing into the texture area (a suffix of a path, or a path start)
         spo = rng.below(tex_len as u64) as usize;
     }
@@ -415,11 +625,11 @@ fn gen_mtrl(rng: &mut Rng, sweep: Option<u32>) -> String {
         "opaque".to_string()
     };
     // shader values and constants
-    let nvals = if rng.chance(1, 6) { 0 } else { rng.range(1, 12) } as usize;
+    let nvals = match w.nvals { Some(n) => n, None => (if rng.chance(1, 6) { 0 } else { rng.range(1, 12) }) as usize };
     let vals: Vec<u32> = (0..nvals).map(|_| f32_edge(rng)).collect();
     let svs = nvals * 4 + rng.below(4) as usize;
     let trail_len = (svs - nvals * 4) + if rng.chance(1, 4) { rng.range(1, 8) as usize } else { 0 };
-    let nconst = rng.range(0, 4);
+    let nconst = match w.nconst { Some(n) => n as u64, None => rng.range(0, 4) };
     let consts: Vec<String> = (0..nconst)
         .map(|_| {
             let nf = (if rng.chance(1, 8) { 0 } else { rng.range(1, 4) } as usize).min(nvals);
@@ -429,14 +639,14 @@ fn gen_mtrl(rng: &mut Rng, sweep: Option<u32>) -> String {
             format!("{}:{}:{}", rng.u32_edge(), start * 4 + rng.below(m1) as usize, nf * 4 + rng.below(m2) as usize)
         })
         .collect();
-    let nkeys = rng.range(0, 4);
+    let nkeys = match w.nkeys { Some(n) => n as u64, None => rng.range(0, 4) };
     let keys: Vec<String> = (0..nkeys).map(|_| format!("{}:{}", rng.u32_edge(), rng.u32_edge())).collect();
-    let nsamp = rng.range(0, 4);
+    let nsamp = match w.nsamp { Some(n) => n as u64, None => rng.range(0, 4) };
     let samps: Vec<String> = (0..nsamp)
         .map(|_| format!("{}:{}:{}:{}:{}:{}", rng.below(22), rng.u32_edge(), rng.below(256), rng.below(256), rng.below(256), rng.below(256)))
         .collect();
     let offs: Vec<u32> = (0..ntex).map(|_| rng.u32_edge()).collect();
-    let ar_len = if rng.chance(1, 6) { rng.range(1, 6) as usize } else { 0 };
+    let ar_len = match w.ar_total { Some(n) => n - 4, None => if rng.chance(1, 6) { rng.range(1, 6) as usize } else { 0 } };
     let sl = |v: &Vec<String>, sep: &str| list(v, sep, |s| s.clone());
     format!(
         "mtrl ver={} fsz={} dss={} tex={} rest={} spo={} offs={} uv={} cs={} tf={} ar={} ct={} dye={} svs={} mf={} keys={} const={} samp={} vals={} trail={}",
@@ -504,18 +714,24 @@ pub fn generate(thorough: bool, seed: u64, out: &mut dyn Write) {
     // ---- shader packages
     let n = if thorough { 150_000 } else { 500 };
     for i in 0..n {
-        writeln!(out, "{}", gen_shpk(&mut rng, i % 10 == 9)).unwrap();
+        writeln!(out, "{}", gen_shpk(&mut rng, i % 10 == 9, &ShpkWide::default())).unwrap();
+    }
+    for w in shpk_wide_cases(&mut rng, thorough) {
+        writeln!(out, "{}", gen_shpk(&mut rng, false, &w)).unwrap();
     }
     // ---- materials: every half pattern through a Dawntrail colour table (32 rows x 32 words; the
     // second pass shifts by 4 so that patterns that met a raw u16 slot meet a half slot)
     for shift in [0u32, 4] {
         for base in (0..65536u32).step_by(1024) {
-            writeln!(out, "{}", gen_mtrl(&mut rng, Some(base + shift))).unwrap();
+            writeln!(out, "{}", gen_mtrl(&mut rng, Some(base + shift), &MtrlWide::default())).unwrap();
         }
     }
     let n = if thorough { 150_000 } else { 400 };
     for _ in 0..n {
-        writeln!(out, "{}", gen_mtrl(&mut rng, None)).unwrap();
+        writeln!(out, "{}", gen_mtrl(&mut rng, None, &MtrlWide::default())).unwrap();
+    }
+    for w in mtrl_wide_cases(&mut rng, thorough) {
+        writeln!(out, "{}", gen_mtrl(&mut rng, None, &w)).unwrap();
     }
 }
 
